@@ -1725,7 +1725,7 @@ def handler_stmt_race_run(prop: str, workload: str, j_sym: Any, k_sym: Any, pick
                           compare: str = "reference", max_k: int = 90, a_pick_sym: Any = 0,
                           inject: Callable[[World], None] | None = None, post: Callable[[World, dict[str, Any], Any], tuple[str, Any] | None] | None = None,
                           k2_sym: Any = None, pick2_sym: Any = 0, wide: bool = False, delayed: bool = False,
-                          pre_choices: list[Any] | None = None) -> bool:
+                          pre_choices: list[Any] | None = None, hold_sym: Any = None, hold_n_sym: Any = 0) -> bool:
     """Two workers, one pre-emption, every pair of handlers the run offers: the handler of the j-th
     delivered message (worker A) is stopped just before its k-th SQL statement and another
     deliverable message (the pick-th of those visible at that instant) is handled completely by
@@ -1754,6 +1754,16 @@ def handler_stmt_race_run(prop: str, workload: str, j_sym: Any, k_sym: Any, pick
                            and (r["lock_ms"] is None or r["lock_ms"] // 1000 < now // 1000)]
                     vis.sort(key=lambda r: (r["deliver_at"], r["id"]))
                     return vis
+
+                HOLD_TYPES = ["CompleteStage", "CompleteTask", "StartStage", "StartTask", "RunTask", "JumpToStage"]
+                hold_type = HOLD_TYPES[hx.pick(hold_sym, len(HOLD_TYPES))] if hold_sym is not None else None
+                hold_n = 1 + hx.pick(hold_n_sym, 3) if hold_sym is not None else 0
+
+                def held_row_id() -> Any:
+                    if hold_type is None:
+                        return None
+                    ins = [r_["id"] for r_ in w.qlog() if r_["op"] == "ins" and r_["q"] == "q" and r_["mtype"] == hold_type]
+                    return ins[hold_n - 1] if len(ins) >= hold_n else None
 
                 st2: dict[str, Any] = {"n": 0, "armed": False, "done": False, "at": None, "c": None}
 
@@ -1794,6 +1804,9 @@ def handler_stmt_race_run(prop: str, workload: str, j_sym: Any, k_sym: Any, pick
                         state["at"] = state["n"]
                         state["sql"] = " ".join(sql.split()[:4])
                         cand = vis[:6] if wide else vis[:2] + ([vis[-1]] if len(vis) > 2 else [])  # the two oldest and the newest (an injected request is the newest); wide: up to 6
+                        hid = held_row_id()
+                        if hid is not None and any(r_["id"] == hid for r_ in vis) and all(r_["id"] != hid for r_ in cand):
+                            cand = [r_ for r_ in vis if r_["id"] == hid] + cand
                         row = cand[hx.pick(pick_sym, len(cand))]
                         state["b"] = row["message_type"]
                         saved = (HOOKS.ctx, HOOKS.handler_base, w._in_deliver, HOOKS.on_statement)
@@ -1813,11 +1826,18 @@ def handler_stmt_race_run(prop: str, workload: str, j_sym: Any, k_sym: Any, pick
                     vis = visible()
                     if not vis:
                         break
+                    if raced_at is None and hold_type is not None:
+                        hid0 = held_row_id()
+                        rest = [r_ for r_ in vis if r_["id"] != hid0]
+                        if rest:
+                            vis = rest  # the held message is not delivered before the race (unless nothing else can be)
                     if raced_at is None and hx.decide_eq(j_sym, step):
                         raced_at = step
                         if inject is not None:
                             inject(w)
                             vis = visible()
+                            if hold_type is not None:
+                                vis = [r_ for r_ in vis if r_["id"] != held_row_id()] or vis
                         acand = vis[:6] if wide else vis[:2] + ([vis[-1]] if len(vis) > 2 else [])
                         arow = acand[hx.pick(a_pick_sym, len(acand))] if len(vis) > 1 else vis[0]  # A need not take the oldest message
                         state["a"] = arow["message_type"]
